@@ -132,6 +132,17 @@ deriving Repr, DecidableEq, Inhabited
 /-- constructor / `Reset()` -/
 def RS.init : RS := {}
 
+/-- `Reset()` / `Reset(ChartState &replacement)` (`left.hh:158-167`): exactly the fields the code re-initialises —
+`prob_ = 0`, `left_done_ = false`, `out_->left.length = 0`, `out_->right.length = 0`.  `out_->left.full` is NOT
+written (it keeps whatever the target state held: the previous result for `Reset()`, garbage for a new target, here
+any `staleFull`); the words/back-offs beyond `length` are not observable and the model keeps right states normalised. -/
+def reset (staleFull : Bool) (_rs : RS) : RS :=
+  { out := { left := { pointers := [], full := staleFull }, right := { length := 0 } }, leftDone := false, prob := 0 }
+
+/-- the seeded variant C08-6: the two overloads folded into one that forgets `left_done_ = false` -/
+def resetKeepsDone (staleFull : Bool) (rs : RS) : RS :=
+  { out := { left := { pointers := [], full := staleFull }, right := { length := 0 } }, leftDone := rs.leftDone, prob := 0 }
+
 /-- `BeginSentence()` -/
 def beginSentence (T : Table) (R : Ptr → Rat) (bos : Word) (rs : RS) : RS :=
   { rs with out := { rs.out with right := beginSentenceState (restSearch T R) bos }, leftDone := true }
